@@ -40,8 +40,12 @@ TRUSTED = [
 ]
 ASSUMPTIONS = [
     "context_window >= 1 (the class documents 'Positive'; 0 makes every tap 0/0 = nan)",
-    "Deltas theorems are over an arbitrary field; Stack theorems over an arbitrary type; tensors well-formed "
-    "(len(data) = prod(shape))",
+    "num_vectors >= 1 in the Stack theorems (guaranteed by Stack.__init__: theorem stack_new_pos)",
+    "Deltas value / shape theorems assume rank >= 1 (rank 0 is modelled and compared, not covered by a theorem)",
+    "Deltas theorems are over an arbitrary field and an arbitrary cast function; Stack theorems over an arbitrary "
+    "type; tensors well-formed (len(data) = prod(shape))",
+    "purity theorems are statements about a value-semantics model (the model cannot alias); input-unchanged and "
+    "no-aliasing are checked on the implementation on every case",
     "pad modes outside the modelled set (reflect_type='odd', stat_length, 'empty', callables) are out of scope and not "
     "generated; mean/median/linear_ramp are generated for Stack only with float dtypes (np.pad rounds them for ints)",
     "an empty *filtered* axis (T=0) is outside the property's quantifier: only the error class / empty result is "
@@ -435,6 +439,18 @@ def in_quantifier(c):
     return True
 
 
+def explicit_error(c):
+    """the exception class post.py raises by an explicit `raise` on this case, if any"""
+    if c["op"] != "stack":
+        return None
+    if c["num_vectors"] < 1:
+        return "ValueError"
+    rank = len(c["shape"])
+    if rank and c["axis"] % rank == c["time_axis"] % rank:
+        return "RuntimeError"
+    return None
+
+
 def scale_of(c):
     m = max([abs(v) for v in c["data"]] + [1])
     for v in c["pad_kwargs"].values():
@@ -473,8 +489,15 @@ def check_case(ctx, c, model_out=None):
         if m[0] == "bad":
             ctx.mismatch(c, model_out, rep["impl"], "driver rejected the case")
         elif m[0] == "err" or kind == "err":
-            if not (m[0] == "err" and kind == "err" and m[1] == res):
-                ctx.mismatch(c, m[:2], rep["impl"], "error behaviour differs")
+            if not (m[0] == "err" and kind == "err"):
+                ctx.mismatch(c, m[:2], rep["impl"], "one raises, the other returns")
+            elif m[1] != res:
+                # the class is part of the tie only where post.py itself raises; which NumPy / Python exception an
+                # input outside the documented domain runs into is incidental (a refactor may change it)
+                if explicit_error(c) is not None:
+                    ctx.mismatch(c, m[:2], rep["impl"], "error class differs for an error post.py raises itself")
+                else:
+                    ctx.count("error_class_differs_outside_domain")
         else:
             if list(res.shape) != m[1]:
                 ctx.mismatch(c, m[1], list(res.shape), "shape differs")
@@ -538,10 +561,41 @@ def check_case(ctx, c, model_out=None):
     return rep
 
 
+def sweep(ctx):
+    """every axis / target_axis / time_axis combination (negative too) on small fixed shapes"""
+    r = ctx.rng
+    out = []
+    big = ctx.tier == "thorough"
+    for rank in (1, 2, 3, 4) if big else (1, 2, 3):
+        for ax in range(-rank, rank):
+            shape = [2] * rank
+            shape[ax % rank] = 3
+            for concat in (True, False):
+                lim = rank if concat else rank + 1
+                for ta in range(-lim, lim):
+                    for D, W in ((1, 1), (2, 2)) + (((3, 1), (1, 4)) if big else ()):
+                        for mode in ("edge", "reflect") + (("constant", "wrap", "symmetric") if big else ()):
+                            out.append(dict(op="deltas", shape=shape, data=gen_data(r, shape), dtype=r.choice(DTYPES),
+                                            axis=ax, num_deltas=D, context_window=W, target_axis=ta,
+                                            concatenate=concat, pad_mode=mode, pad_kwargs={}, in_place=False))
+    for rank in (2, 3, 4):
+        for ax in range(-rank, rank):
+            for ta in range(-rank, rank):
+                for n in (2, 3):
+                    for T in (0, 1, 5, 6) + ((2, 3, 7) if big else ()):
+                        for mode in (None, "edge") + (("wrap", "reflect", "minimum") if big else ()):
+                            shape = [2] * rank
+                            shape[ta % rank] = T
+                            out.append(dict(op="stack", shape=shape, data=gen_data(r, shape), dtype=r.choice(DTYPES),
+                                            axis=ax, num_vectors=n, time_axis=ta, pad_mode=mode, pad_kwargs={},
+                                            in_place=r.random() < 0.5))
+    return out
+
+
 def cases_for(ctx):
-    nd = ctx.scale(900, 14000)
-    ns = ctx.scale(1300, 20000)
-    cases = list(CORPUS)
+    nd = ctx.scale(3000, 40000)
+    ns = ctx.scale(4000, 60000)
+    cases = list(CORPUS) + sweep(ctx)
     cases += [gen_deltas(ctx) for _ in range(nd)]
     cases += [gen_stack(ctx) for _ in range(ns)]
     # structurally special: rank 0 (every combination), num_vectors < 1
@@ -556,7 +610,34 @@ def cases_for(ctx):
     return cases
 
 
+# sha256[:16] of `__init__` + `apply` source at the time the model was written (informational: the tie is the
+# correspondence run, so a behaviour-preserving rewrite only produces a note)
+MODELLED_SOURCE = {"Deltas": "0f0ca9b98bb4e4b0", "Stack": "d3b5db053c65d6a7"}
+
+
+def source_note(ctx):
+    import hashlib
+    import inspect
+
+    post = post_mod()
+    changed = []
+    for name, want in MODELLED_SOURCE.items():
+        try:
+            cls = getattr(post, name)
+            src = "".join(inspect.getsource(getattr(cls, m)) for m in ("__init__", "apply"))
+            got = hashlib.sha256(src.encode()).hexdigest()[:16]
+        except Exception as e:  # noqa: BLE001
+            got = "unreadable: %s" % type(e).__name__
+        if got != want:
+            changed.append(name)
+    ctx.extra["modelled_source_changed"] = changed
+    if changed:
+        ctx.note("source of %s differs from the text the model was mirrored from; the tie rests on the "
+                 "correspondence run" % ", ".join(changed))
+
+
 def run(ctx, driver, with_driver=True):
+    source_note(ctx)
     cases = cases_for(ctx)
     outs = [None] * len(cases)
     if with_driver:
